@@ -439,6 +439,8 @@ class UCSReplication(MessagePassingComputation):
             raise ValueError("adding already present computation %s", comp_def)
 
         self.computations[comp_name] = comp_def, footprint
+        # The neighbors of this computation are new potential path targets.
+        self._replication_computations_cache = set()
         if self.logger.isEnabledFor(logging.INFO):
             self.logger.info(f"add computation {comp_name} to replicate")
 
@@ -975,20 +977,19 @@ class UCSReplication(MessagePassingComputation):
         # restart replication when needed.
         agt_rep = replication_computation_name(agent)
         if event == "agent_removed":
-            without = {
-                (a, c) for a, c in self._replication_computations_cache if a != agent
-            }
-            if len(without) != len(self._replication_computations_cache):
-                self._replication_computations_cache = without
-                self._removed_agents.add(agent)
+            # The computations of this agent will move to other agents (and
+            # replicas may be hosted on agents that are not our neighbors):
+            # the path targets must be looked up again.
+            self._replication_computations_cache = set()
+            self._removed_agents.add(agent)
 
-                # if we had pending request to this agent, we will never get an
-                # answer
-                self._answer_lost_requests(agent)
+            # if we had pending request to this agent, we will never get an
+            # answer
+            self._answer_lost_requests(agent)
 
-                # Re-launch replication for the computation(s) that have lost a
-                # replica.
-                self._replicate_on_agent_lost(agent)
+            # Re-launch replication for the computation(s) that have lost a
+            # replica.
+            self._replicate_on_agent_lost(agent)
 
         elif event == "agent_added":
             if agent != self.agt_name:
